@@ -630,5 +630,5 @@ var interpretedPkgs = map[string]bool{
 	"sort":           true,
 	"slices":         true,
 	"cmp":            true,
-	"errors":         false,
+	"errors":         true,
 }
